@@ -18,7 +18,7 @@ LEVEL_NOTE = 'Trusted: the ledger model; single-column series; stamps non-decrea
 RULE = ('random publication histories: 2-8 versions over 3-30 observation dates (deliberately crossing 16 stored rows), non-decreasing stamps with repeats, values in {0..3, NaN} '
         'so repeats and reverts are common, partial versions, dates first appearing late; after every merge reads at T before/on/between/after each stamp for what in {-1, 0}; '
         'non-trivial = (>=2 versions share a stamp and >16 stored rows) or a revert to an earlier value; distinct = canonical hash of the history')
-RULE_ALSO = "; added by the coverage audit and round 8: read times as ISO text / yyyymmdd / date, observation dates after the stamps, stamped and plain versions mixed in one merge, stamps taken from the clock ('now') bracketed by clock readings; the store's index name and column labels are part of read_does_not_change_store; rows stamped relative to their own observation date (Bi(ts, n), Bi(ts, 'nd'), Bi(ts, ['kb', 'nh']), Bi(ts, 'shift')) against an independent stamp model, then merged and read like any other history"
+RULE_ALSO = "; added by the coverage audit and round 8: read times as ISO text / yyyymmdd / date / seconds since 1970, observation dates after the stamps, stamped and plain versions mixed in one merge, stamps taken from the clock ('now') bracketed by clock readings; the store's index name and column labels are part of read_does_not_change_store; rows stamped relative to their own observation date (Bi(ts, n), Bi(ts, 'nd'), Bi(ts, ['kb', 'nh']), Bi(ts, 'shift')) against an independent stamp model, then merged and read like any other history"
 ASSUMPTIONS = ['versions are merged in non-decreasing stamp order (as the statement requires)', 'single-column series only (multi-column frames are outside the statement)',
                'for versions whose rows are stamped relative to their own date the premise (non-decreasing stamps) is read per observation date', 'idempotence is claimed for re-merging the most recent version or a version whose stamp is unique in the history']
 T0 = datetime.datetime(2020, 1, 1)
@@ -314,7 +314,11 @@ def check_reads(ctx, store, ledger, stamps, where, mon_prefix=None):
             if T is not None and getattr(T, 'tzinfo', None) is None and (ti * 7 + what + len(us)) % 4 == 0:
                 # ... or in the spellings Bi / bi_merge accept for a stamp: ISO text, and for a midnight a date or a yyyymmdd integer
                 midnight = T == datetime.datetime(T.year, T.month, T.day)
-                Tq = [T.isoformat(), T.date() if midnight else T.isoformat(' '), (T.year * 10000 + T.month * 100 + T.day) if midnight else T.isoformat()][(ti + len(us)) % 3]
+                epoch = (T - datetime.datetime(1970, 1, 1)) / datetime.timedelta(seconds=1)      # seconds since 1970 (UTC, like every naive stamp here): a float, or an int on a whole second
+                epoch = int(epoch) if epoch == int(epoch) else epoch
+                Tq = [T.isoformat(), T.date() if midnight else T.isoformat(' '), (T.year * 10000 + T.month * 100 + T.day) if midnight else T.isoformat(), epoch][(ti + len(us)) % 4]
+                if isinstance(Tq, float):
+                    Tq = T.isoformat()          # (whole seconds only: a float of seconds cannot carry every microsecond exactly)
                 ctx.cls('read_time_as:%s' % type(Tq).__name__)
             if T is not None and getattr(T, 'tzinfo', None) is not None:
                 Tq = _pd.Timestamp(T).tz_convert(['Asia/Tokyo', 'America/New_York', 'UTC'][(ti + what) % 3])      # the same instant quoted in the reader's zone
